@@ -156,6 +156,8 @@ class Project:
         from .normalize import normalize
         self.inline_log = []
         if not os.environ.get('SA_NO_INLINE'):
+            from .inline import undo_renames
+            undo_renames(self.modules, log=self.inline_log)
             if Inliner(self.modules, log=self.inline_log).run():
                 for m in self.modules.values():
                     m.tree = normalize(m.tree)
